@@ -19,6 +19,15 @@ option value and every width, with the structural minimum as the only hypothesis
 
 "Lines" are what `Segment.split_lines` — the observer every consumer of a rendering uses — makes of
 the frame's output.
+
+52 theorems.  Besides the rectangles of `Model/Frames.lean` (text, segmentation, control flags) they cover the STYLED
+layer of `Model/FramesStyled.lean` (`padding_style`, `panel_border_style`, `panel_content_pad_style`, `align_style`,
+`vertical_center_lines`, `panel_title_own_width`, `rule_no_title_end`) and `Columns` down to the rendered grid table
+(`columns_rendered_cells`, through `Model/Layout.lean` and `Model/Table.lean`).  Panel titles and Rule texts as real
+`Text` objects (`Model/FramesTitle.lean`) are compared with rich by the correspondence check only: no theorem here is
+about them (`panel_border_style` takes the title as an arbitrary oracle).  All seven code-variant flags
+(`Frames.Variant`, `SVariant`) are repaired in /repo (fixes a9def3a, 8879061, f5f2be9, f7ecf83, 63e086e, 0e1edf7,
+a442cbd); the `old_…` theorems are the witnesses for rich 9.10.0 as found.
 -/
 namespace RichModel.C08
 open RichModel RichModel.Frames
@@ -395,7 +404,7 @@ theorem panel_border_style (A : SOps σ) (env : Env) (sv : SVariant) (o : PanelO
   simp only [panelTopLineS, Option.some.injEq] at htop
   exact htop.symm
 
-/-- **panel_content_style** (repaired `render_lines`): the blanks that complete a short child line inside a
+/-- **panel_content_style** (repaired `render_lines`, fix 63e086e): the blanks that complete a short child line inside a
 panel carry the panel style `s`, like every other content cell. -/
 theorem panel_content_pad_style (A : SOps σ) (z t r : Bool) (bv : Frames.Variant) (inner : Child σ) (s : σ) (cwid : Int) :
     inner.linesAtS cw A { base := bv, linesPadUnstyled := false, titleAtConsoleWidth := t, ruleNoTitleEnd := r } cwid (some s) true =
@@ -409,7 +418,7 @@ theorem panel_content_pad_style (A : SOps σ) (z t r : Bool) (bv : Frames.Varian
 def hiChild : Child Nat := { measure := fun _ => ⟨2, 2⟩, render := fun _ => [{ text := ['h', 'i'], style := some 7, control := false }, nl] }
 def natOps : SOps Nat := { add := fun a b => a * 100 + b, null := 0 }
 
-/-- New finding, rich as found: inside `Panel("hi", style=5, padding=0)` the blanks after `hi` have style `None`
+/-- Finding of the deepening round, rich 9.10.0 as found (before fix 63e086e): inside `Panel("hi", style=5, padding=0)` the blanks after `hi` have style `None`
 (not the panel style): `render_lines` does not hand its `style` to `split_and_crop_lines`. -/
 theorem old_panel_content_pad_unstyled :
     hiChild.linesAtS cw natOps { linesPadUnstyled := true } 4 (some 5) true
@@ -439,7 +448,7 @@ theorem vertical_center_lines (height : Int) (style : Option σ) (c : Child σ) 
 
 /-! ### The two quirks of the first round, decided -/
 
-/-- Repaired `Panel` (title rendered at the width it was aligned to, `rstrip_end` counting cells): for a simple
+/-- Repaired `Panel` (title rendered at the width it was aligned to: fix 0e1edf7; `rstrip_end` counting cells: fix f5f2be9): for a simple
 title the title part of the top border is exactly `cwid − 2` cells — the top border is as wide as the rest of
 the panel — at EVERY available width, wider than the console or not.  (`cwid` = child width, the panel is
 `cwid + 2` wide; `hsimple`: the aligned title stays in the simple domain, i.e. the fill character is simple.) -/
@@ -479,7 +488,7 @@ theorem panel_title_own_width (v : Frames.Variant) (title : List Char) (a : Alig
           | cons x xs ih => simp only [List.map_cons, lineLength_cons, ih]; rfl
         rw [hmap, h1, hlen]
 
-/-- New finding, rich as found: a panel rendered with options wider than the console gets its title cropped to
+/-- Finding of the deepening round, rich 9.10.0 as found (before fix 0e1edf7): a panel rendered with options wider than the console gets its title cropped to
 `console.width` — the title part is 10 cells where the border needs 26 (`Panel("x", title="a long title here")`
 on a 10-column console rendered at width 30). -/
 theorem old_panel_title_cropped_at_console_width :
@@ -489,7 +498,8 @@ theorem old_panel_title_cropped_at_console_width :
       (fun t => (t.render 0 26 '─' 26).map (lineLength cw))) = some 26 := by
   decide +kernel
 
-/-- Repaired `Rule` without a title honours its `end` option; rich as found ignores it. -/
+/-- Repaired `Rule` without a title honours its `end` option (fix a442cbd); rich 9.10.0 as found ignores it (second conjunct:
+the witness for `ruleNoTitleEnd`). -/
 theorem rule_no_title_end (env : Env) (bv : Frames.Variant) (l t : Bool) (o : RuleOpts) (w : Int) (h : o.title = []) :
     (ruleTextS cw env { base := bv, linesPadUnstyled := l, titleAtConsoleWidth := t, ruleNoTitleEnd := false } o w).2 = o.endS ∧
     (ruleTextS cw env { base := bv, linesPadUnstyled := l, titleAtConsoleWidth := t, ruleNoTitleEnd := true } o w).2 = ['\n'] := by
